@@ -80,7 +80,8 @@ Inductive op :=
 | OReset
 | CWrite (k i : nat) (c : ascii)                    (* client: h_k[i] = c *)
 | CAppend (k : nat) (d : list ascii) (extra : nat)  (* client: h_k = append(h_k, d...) *)
-| CSetUnbuf (k : nat) (d : list ascii) (extra : nat)(* client: h_k = append(h_k[:0], d...)  (unbuffered Set on that field) *).
+| CSetUnbuf (k : nat) (d : list ascii) (extra : nat)(* client: h_k = append(h_k[:0], d...)  (unbuffered Set on that field) *)
+| OBufferizeFrom (k : nat) (extra : nat)            (* Bufferize[String](h_k): a value handed out earlier is fed back in *).
 
 Section Step.
 Variable tight : bool.
@@ -172,6 +173,15 @@ Definition step (st : state) (o : op) : state :=
         let '(h', s') := append h s0 d e in
         {| st_heap := h'; st_bb := bb;
            st_log := upd_nth k {| hd_str := false; hd_sl := s'; hd_want := d; hd_live := true |} lg |}
+      else st
+    | None => st
+    end
+  | OBufferizeFrom k e =>
+    match nth_error lg k with
+    | Some x =>
+      if hd_live x then
+        let '(h', bb', y) := bufferize1 h bb (hd_str x) (hd_want x) e in
+        {| st_heap := h'; st_bb := bb'; st_log := lg ++ [y] |}
       else st
     | None => st
     end
